@@ -28,3 +28,49 @@ def safe_tables(ctx, prog, rule):
     except tables.TableError as e:
         ctx.unrecognised(rule, 'operator-tables', 'not-tabular', 'operator table is not a total constant function of the operator kind: %s' % e)
         return None
+
+
+def terminal_call_sites(prog, is_target, roots, max_depth=3):
+    """who-may-call through helpers: the call sites of the target, where a site inside a crate-private non-closure helper (other than a
+    root function) is replaced by the call sites of that helper, transitively. Returns a list of (function short path, span).
+    Taking the target or a followed helper as a fn item (not a direct call) is reported as a site '(fn item taken)'."""
+    from mirlib import short, op_const
+
+    def uses_of(pred):
+        out = []
+        for f in prog.fns:
+            for b, t in f.calls():
+                if pred(t['callee']):
+                    out.append((f, t['span'], False))
+                for a in t['args']:
+                    c = op_const(a)
+                    if c and c.get('k') == 'fn' and pred(dict(local=True, name=(c.get('def') or '').split('::')[-1], **{'def': c.get('def') or ''})):
+                        out.append((f, t['span'], True))
+            for blk in f.blocks:
+                for st in blk['stmts']:
+                    if st['k'] == 'assign' and st['rv']['k'] in ('use', 'cast'):
+                        c = op_const(st['rv']['op'])
+                        if c and c.get('k') == 'fn' and pred(dict(local=True, name=(c.get('def') or '').split('::')[-1], **{'def': c.get('def') or ''})):
+                            out.append((f, st.get('span'), True))
+        return out
+    final = []
+    seen = set()
+    work = [(f, sp, taken, 0) for f, sp, taken in uses_of(is_target)]
+    while work:
+        f, sp, taken, depth = work.pop()
+        sp_f = short(f.path)
+        if taken:
+            final.append((sp_f + ' (fn item taken)', sp))
+            continue
+        if sp_f in roots or depth >= max_depth or f.kind == 'Closure' or not str(f.j.get('vis') or '').startswith('Restricted'):
+            final.append((sp_f, sp))
+            continue
+        if sp_f in seen:
+            continue
+        seen.add(sp_f)
+        ups = uses_of(lambda c, sp_f=sp_f: c.get('local') and short(c.get('def') or '') == sp_f)
+        if not ups:
+            final.append((sp_f + ' (unused helper)', sp))
+        for g, sp2, tk in ups:
+            work.append((g, sp2, tk, depth + 1))
+    return final
